@@ -21,8 +21,11 @@ class Job(object):
 
     def __init__(self, harness, cfg, name=None, block=2, pkg_key='default',
                  max_paths=3000, query_timeout_ms=20000, validate=2,
-                 max_int_values=6, nra_timeout_ms=30000):
+                 max_int_values=6, nra_timeout_ms=30000, split=None):
         self.nra_timeout_ms = nra_timeout_ms
+        self.split = split            # decision depth at which to fan out
+        self.root = None              # sub-job: explore below this prefix
+        self.presplit = False
         self.harness, self.cfg = harness, cfg
         self.name = name or '%s %s' % (harness, json.dumps(cfg, sort_keys=True))
         self.block, self.pkg_key = block, pkg_key
@@ -117,13 +120,15 @@ def run_job(args):
                 path_models.append(e.model_dict(m))
 
     try:
-        eng.explore(body)
+        eng.explore(body, root=job.root,
+                    split_depth=job.split if job.presplit else None)
     except Exception as e:
         tb = traceback.format_exc()
         return dict(name=job.name, harness=job.harness, cfg=job.cfg,
                     crashed=tb, wall_s=time.time() - t0)
     res = eng.summary()
     res['harness'], res['cfg'] = job.harness, job.cfg
+    res['split_prefixes'] = eng.split_prefixes
     res['rewrites'] = [list(r) for r in pkg.rewrites]
     # replay candidates (one per label) on the real code
     seen = {}
@@ -166,7 +171,9 @@ def run_job(args):
     return res
 
 
-def run_jobs(jobs, seed=0, procs=None):
+def _map(jobs, seed, procs):
+    if not jobs:
+        return []
     procs = procs or min(16, max(1, len(jobs)))
     if procs == 1 or len(jobs) == 1:
         return [run_job((j, seed)) for j in jobs]
@@ -174,6 +181,26 @@ def run_jobs(jobs, seed=0, procs=None):
     with ctx.Pool(procs, maxtasksperchild=8) as pool:
         return list(pool.imap_unordered(run_job, [(j, seed) for j in jobs],
                                         chunksize=1))
+
+
+def run_jobs(jobs, seed=0, procs=None):
+    """jobs with `split` are fanned out: a pre-pass explores the first
+    `split` decisions and every prefix it reaches becomes a sub-job."""
+    import copy
+    for j in jobs:
+        j.presplit = j.split is not None
+    first = _map(jobs, seed, procs)
+    subs = []
+    for r in first:
+        for k, pref in enumerate(r.get('split_prefixes') or []):
+            src = next(j for j in jobs if j.name == r['name'])
+            sj = copy.copy(src)
+            sj.presplit = False
+            sj.root = list(pref)
+            sj.name = '%s [below prefix %d]' % (src.name, k)
+            sj.validate = min(src.validate, 1)
+            subs.append(sj)
+    return first + _map(subs, seed, procs)
 
 
 def simple_result(name):
